@@ -98,6 +98,8 @@ def _work_chunk(args: tuple[str, int, str, list[int]]) -> list[dict[str, Any]]:
         res = run_one(_PROFILE, case)
         faulthandler.cancel_dump_traceback_later()
         rec = {k: v for k, v in res.items() if k != "log"}
+        if not (res["violations"] or res.get("harness_error")):
+            rec.pop("fingerprints", None) if len(res.get("fingerprints", [])) > 4000 else None
         rec["index"] = i
         rec["run_seed"] = rs
         mine = [v for v in res["violations"] if v["property"] == prop]
@@ -187,6 +189,12 @@ def minimise(profile: Any, case: dict[str, Any], prop: str, signature: str, budg
     if "schedule" in final:
         best["schedule"] = final["schedule"]
         best["strategy"] = "explicit"
+    if _has(final, prop, signature):
+        for v in final["violations"]:
+            if v["signature"] == signature and isinstance(v.get("case_update"), dict):
+                trial = dict(best, **v["case_update"])  # e.g. pin the single failing crash point
+                if _has(run_one(profile, copy.deepcopy(trial)), prop, signature):
+                    best = trial
     best["minimised"] = {"tries": tries, "ops_before": len(case.get(key, []) or []), "ops_after": len(best.get(key, []) or [])}
     return best
 
@@ -302,7 +310,10 @@ def run_check(prop: str, profile_name: str, tier: str, seed: int, jobs: int, spe
     # ---- evidence
     wall = time.time() - t0
     nontrivial = [r for r in recs if r.get("nontrivial")]
-    fps = {r.get("fingerprint") for r in nontrivial if r.get("fingerprint")}
+    fps = {r.get("fingerprint") for r in nontrivial if r.get("fingerprint") and "fingerprints" not in r}
+    for r in recs:
+        fps.update(r.get("fingerprints", []))
+    n_eval = sum(r.get("evaluations", 1) for r in recs)
     probes: Counter[str] = Counter()
     faults: Counter[str] = Counter()
     strategies: Counter[str] = Counter()
@@ -331,11 +342,12 @@ def run_check(prop: str, profile_name: str, tier: str, seed: int, jobs: int, spe
         "seed": seed,
         "level": level,
         "coverage": {
-            "evaluations": len(recs),
+            "evaluations": n_eval,
+            "histories": len(recs),
             "distinct_nontrivial": len(fps),
             "rule": spec["rule"],
             "samples": samples,
-            "runs_per_hour": int(len(recs) / wall * 3600) if wall > 0 else 0,
+            "runs_per_hour": int(n_eval / wall * 3600) if wall > 0 else 0,
             "seeds": {"verif_seed": seed, "first_run_seed": recs[0]["run_seed"] if recs else None, "last_run_seed": recs[-1]["run_seed"] if recs else None},
             "sim_steps": sum(r.get("steps", 0) for r in recs),
             "sim_time_note": "logical time only: fakesnow has no clock or timer; one step = one engine call or transport exchange",
@@ -366,7 +378,7 @@ def run_check(prop: str, profile_name: str, tier: str, seed: int, jobs: int, spe
         json.dump(ev, f, indent=1, default=repr)
     for ln in lines:
         print(ln)
-    print(f"[{prop}] tier={tier} seed={seed} runs={len(recs)} distinct_nontrivial={len(fps)} steps={ev['coverage']['sim_steps']} "
+    print(f"[{prop}] tier={tier} seed={seed} runs={n_eval} distinct_nontrivial={len(fps)} steps={ev['coverage']['sim_steps']} "
           f"preemptions={ev['coverage']['preemptions']} new_violations={len(new_viol)} known={sum(known_hit.values())} "
           f"harness_errors={len(harness)} wall={wall:.1f}s")
     if new_viol:
